@@ -220,6 +220,7 @@ def run(db, cx):
     # -------------------------------------------- rule 3: killed-secondary booking
     SEC_E = "F:" + C + "Secondary::energy"
     sites = 0
+    nbook = 0
     for f in db.all_funcs():
         if not f.name.startswith(C):
             continue
@@ -274,6 +275,7 @@ def run(db, cx):
                       "antiparticle edge adds 2*mass before the secondary is cleared",
                       short(ev["loc"]),
                       why="a killed positron secondary annihilates: 2mc^2 must be deposited")
+        nbook += len(books)
         for (b, i, ev) in books:
             def is_reset(x, _rs=[r[2]["loc"] for r in resets]):
                 return x["e"] == "write" and x.get("kind") == "opassign" and x["loc"] in _rs
@@ -284,7 +286,8 @@ def run(db, cx):
                   "secondary energy booked as deposition but the secondary stays alive",
                   short(ev["loc"]),
                   why="otherwise the energy is counted twice: deposited and carried")
-    cx.floor("secondary reset sites", sites, 2 if any("KleinNishina" in u for u in db.units) else 1)
+    cx.floor("secondary reset/booking sites", sites + nbook,
+             4 if any("KleinNishina" in u for u in db.units) else 2)
 
     # the applier hands deposition and secondaries to the step view on every
     # non-failure path after the changed() test
